@@ -312,3 +312,128 @@ def stochastic_setup(draw, m, x_hi=40, t_max=10.0, target_events=120, hard_event
         horizon = min(horizon, hard_events / bound)
     horizon = max(sig(horizon * draw(st.sampled_from([0.3, 1.0, 1.0])), 3), 1e-3)
     return {"x0": x0, "theta": theta, "t0": t0, "horizon": horizon, "np_seed": draw(st.integers(0, 2 ** 32 - 1))}
+
+
+# ------------------------------------------------------------------ benign ODE models (C02, C06, C07, C16-C18, C20)
+@st.composite
+def ode_model(draw, max_states=4, allow_time=True, families=("chain", "epidemic", "bounded"), min_params=1,
+              additive_params=False):
+    """Models whose solutions stay bounded and well-conditioned on short horizons, built from the same IR.
+
+    chain    : linear progression with optional back-flow, inflow and linear removal (globally Lipschitz)
+    epidemic : SIS/SIR/SEIR-like mass action divided by a population constant, optional waning and forcing
+    bounded  : saturating / decaying-exponential interactions with constant inflow and linear removal
+    additive_params=True builds 'class A' models for C20: parameters enter only additively (constant inflow
+    rates and nothing else), every state-dependent rate has literal coefficients.
+    """
+    fam = draw(st.sampled_from(list(families)))
+    n_s = draw(st.integers(2 if fam != "bounded" else 1, max_states))
+    pool = draw(st.sampled_from([STATE_POOL, STATE_POOL_I]))
+    states = draw(st.lists(st.sampled_from(pool), min_size=n_s, max_size=n_s, unique=True))
+    n_p = draw(st.integers(min_params, 4))
+    params = draw(st.lists(st.sampled_from([p for p in PARAM_POOL if p != "N"]), min_size=n_p, max_size=n_p, unique=True))
+    used = []
+
+    def par():
+        if additive_params:
+            return ir.C(draw(fl(0.2, 1.5, 3)))
+        p = draw(st.sampled_from(params))
+        used.append(p)
+        return ir.P(p)
+
+    def forcing(e):
+        if allow_time and draw(st.integers(0, 4)) == 0:
+            d = ir.C(draw(fl(0.1, 0.6, 2)))
+            p = ir.C(draw(st.integers(2, 8)))
+            return ir.mul(e, ir.add(ir.C(1), ir.mul(d, ir.cos(ir.div(ir.mul(ir.C(2), ir.PI, ir.T), p)))))
+        return e
+
+    events = []
+
+    def T_(o, d, rate, mag=1):
+        events.append({"rate": rate, "rate_kind": "x", "trans": [{"kind": "T", "o": o, "d": d, "mag": {"int": mag}}]})
+
+    def B_(d, rate):
+        events.append({"rate": rate, "rate_kind": "x", "trans": [{"kind": "B", "o": None, "d": d, "mag": {"int": 1},
+                                                                 "birth_by": draw(st.sampled_from(["origin", "destination"]))}]})
+
+    def D_(o, rate):
+        events.append({"rate": rate, "rate_kind": "x", "trans": [{"kind": "D", "o": o, "d": None, "mag": {"int": 1}}]})
+
+    if fam == "chain":
+        for a, b in zip(states[:-1], states[1:]):
+            T_(a, b, forcing(ir.mul(par(), ir.S(a))))
+        if draw(st.booleans()):
+            T_(states[-1], states[0], ir.mul(par(), ir.S(states[-1])))
+        if draw(st.booleans()) or additive_params:
+            B_(states[0], ir.P(draw(st.sampled_from(params))) if additive_params else par())
+        if draw(st.booleans()):
+            dst = draw(st.sampled_from(states))
+            D_(dst, ir.mul(par(), ir.S(dst)))
+    elif fam == "epidemic":
+        Ntot = ir.C(draw(st.sampled_from([10, 50, 100])))
+        s, i = states[0], states[1 if n_s == 2 else draw(st.integers(1, n_s - 1))]
+        first = states[1]
+        T_(s, first, forcing(ir.div(ir.mul(par(), ir.S(s), ir.S(i)), Ntot)))
+        for a, b in zip(states[1:-1], states[2:]):
+            T_(a, b, ir.mul(par(), ir.S(a)))
+        if draw(st.booleans()):
+            T_(states[-1], s, ir.mul(par(), ir.S(states[-1])))
+        if additive_params:
+            B_(s, ir.P(draw(st.sampled_from(params))))
+    else:
+        for a in states:
+            B_(a, ir.P(draw(st.sampled_from(params))) if additive_params else par())
+            kind = draw(st.sampled_from(["lin", "sat", "quad"]))
+            if kind == "lin":
+                D_(a, ir.mul(par(), ir.S(a)))
+            elif kind == "sat":
+                D_(a, ir.div(ir.mul(par(), ir.S(a), ir.S(a)), ir.add(ir.C(1), ir.S(a))))
+            else:
+                D_(a, ir.mul(ir.C(draw(fl(0.02, 0.2, 2))), ir.S(a), ir.S(a)))
+        if n_s >= 2:
+            a, b = states[0], states[1]
+            T_(a, b, ir.div(ir.mul(par(), ir.S(a)), ir.add(ir.C(1), ir.mul(ir.C(draw(fl(0.1, 1.0, 2))), ir.S(b)))))
+    if additive_params:
+        # make sure every parameter appears (additively)
+        seen = set()
+        for ev in events:
+            seen |= ir.atoms(ev["rate"], "p")
+        for p in params:
+            if p not in seen:
+                B_(draw(st.sampled_from(states)), ir.P(p))
+    else:
+        seen = set()
+        for ev in events:
+            seen |= ir.atoms(ev["rate"], "p")
+        for p in params:
+            if p not in seen:
+                dst = draw(st.sampled_from(states))
+                D_(dst, ir.mul(ir.P(p), ir.S(dst)))
+    decl = [{"name": s, "lims": None} for s in states]
+    return {"state_decl": decl, "state_style": draw(st.sampled_from(["list", "space", "comma"])),
+            "params": params, "param_style": draw(st.sampled_from(["list", "comma"])),
+            "derived": [], "events": events, "odes": [], "family": fam}
+
+
+@st.composite
+def ode_setup(draw, m, n_times=(1, 12), t_max=6.0, uniform=None):
+    n_s = len(ir.state_names(m))
+    x0 = [draw(fl(0.5, 15.0, 3)) for _ in range(n_s)]
+    theta = [draw(fl(0.1, 1.5, 3)) for _ in m["params"]]
+    t0 = draw(st.sampled_from([0.0, 0.0, 1.0, 3.5]))
+    n = draw(st.integers(*n_times))
+    if uniform is None:
+        uniform = draw(st.booleans())
+    if uniform:
+        step = draw(fl(0.05, t_max / max(n, 1), 3))
+        rel = [sig(step * (i + 1), 6) for i in range(n)]
+    else:
+        gaps = [draw(st.sampled_from([1e-3, 0.01, 0.1, 0.3, 0.7, 1.0, 2.0])) for _ in range(n)]
+        scale = min(1.0, t_max / sum(gaps))
+        rel, acc = [], 0.0
+        for g in gaps:
+            acc += g * scale
+            rel.append(sig(acc, 6))
+        rel = sorted(set(rel))
+    return {"x0": x0, "theta": theta, "t0": t0, "grid_rel": rel}
